@@ -977,6 +977,33 @@ func probeNewToken(w *casefile.Writer) {
 	emitProbe(w, res)
 }
 
+// probeSameBulkDuplicate is a second observation outside the quantifier (each bulk carries pairwise
+// distinct IDs): ONE bulk holds the same ID twice with different bytes. SetMultiple accepts the
+// first and rejects the second, but Filter keeps every meta whose ID was accepted, so both metas
+// get LIDs while DocsTotal counts one. Recorded in stats.json only.
+func probeSameBulkDuplicate(w *casefile.Writer) {
+	a := Doc{MID: 1041, RID: 1, Var: 0, Pad: 2, Toks: []int{tokenCode("k:a"), tokAll}}
+	a2 := a
+	a2.Var, a2.Pad = 1, 7
+	h := History{Mode: "probe-same-bulk-duplicate", Workers: 1, ObsAt: []int{1, 2, 3},
+		Steps: []Step{{Kind: "bulk", Docs: []Doc{a, a2}}, {Kind: "restart"}, {Kind: "seal"}}}
+	wk := &worker{}
+	res := wk.run(h)
+	wk.stop()
+	key := "observation:same-bulk-duplicate-id"
+	w.Count(key)
+	var seen []map[string]any
+	for _, o := range res.obs {
+		m := map[string]any{"stage": o.Stage, "docs_total": o.DocsTotal, "fetched_tag": o.Fetch}
+		if len(o.Queries) > 0 {
+			m["all_total"], m["all_ids"] = o.Queries[0].Total, len(o.Queries[0].IDs)
+		}
+		seen = append(seen, m)
+	}
+	w.Extra[key] = map[string]any{"history": h, "first_tag": a.tag(), "second_tag": a2.tag(), "observed": seen,
+		"problem": crashLine(res.crash + res.fatal + res.err)}
+}
+
 func emitProbe(w *casefile.Writer, res histResult) {
 	// stats-only observation: outside the quantifier (a repeated ID carries the tokens of its first
 	// delivery), hence neither a violation nor a case
@@ -1106,6 +1133,7 @@ func main() {
 		emitHistory(w, res)
 	}
 	probeNewToken(w)
+	probeSameBulkDuplicate(w)
 	w.Extra["seconds"] = time.Since(t0).Seconds()
 	if err := w.Close(); err != nil {
 		panic(err)
